@@ -164,7 +164,8 @@ func containers(elem reflect.Type) []reflect.Type {
 	}
 }
 
-var marks = []string{"required", "exist", ""}
+// both markers on one field (either order, or one of them twice) still mean: the sub-objects are validated once
+var marks = []string{"required", "exist", "", "required,exist", "exist,required", "exist,exist"}
 
 func tagOf(mark string) reflect.StructTag {
 	if mark == "" {
@@ -780,7 +781,7 @@ func main() {
 	runner.Main(runner.Config{
 		Property:  "C04",
 		Technique: "bounded-exhaustive enumeration of acyclic object graphs (container grammar, depth<=3) vs walk reference model (expected clause/path list)",
-		Rule: "types: 19 containers of Leaf {T,*T,**T,[]T,[]*T,[]**T,[2]T,[2]*T,map[string]T,map[string]*T,map[int]*T,map[bool]T,map[int32]**T,map[float64]*T,map[struct]T,map[interface{}]*T,map[[2]int]T,map[uint8]T,map[struct{A,B string}]*T; NaN keys, distinct keys that print the same} x marks {required,exist,none} as one or two fields (+unexported incl. names starting with '_' / a CJK or non-ASCII lower-case letter, time.Time, unmarked extras), " +
+		Rule: "types: 19 containers of Leaf {T,*T,**T,[]T,[]*T,[]**T,[2]T,[2]*T,map[string]T,map[string]*T,map[int]*T,map[bool]T,map[int32]**T,map[float64]*T,map[struct]T,map[interface{}]*T,map[[2]int]T,map[uint8]T,map[struct{A,B string}]*T; NaN keys, distinct keys that print the same} x marks {required, exist, none, 'required,exist', 'exist,required', 'exist,exist'} as one or two fields (+unexported incl. names starting with '_' / a CJK or non-ASCII lower-case letter, time.Time, unmarked extras), " +
 			"nested once more through every container of Mid (depth 3; thorough: unmarked outer fields too, and a depth-4 space over 8 container kinds per level); values: nil / zero / valid / violating nodes, collections of length 0..2 with every mix; top-level input T,*T,**T,[]T,[]*T,[2]T,map[string]*T,map[int]T; " +
 			"plus a named Parent/Mid/Leaf family structs with up to 130 fields, and self-referential chains to depth 200 through pointers, slices and maps; a Cart type whose slice / pointer / value / map fields carry call-supplied functions under names that merely start like a marker (required_with, exists_in_book, requiredx, existing, exist_, required2) next to real markers; Leaf = {required, to=1~3, either group of two}; expected clauses from the walk model: field clauses compared in order (as a multiset when a map with >=2 entries is iterated), group clauses (reported after the walk, path-qualified per sub-object) after them as a multiset; non-trivial = a violation at depth>=2",
 		Assumptions: []string{"acyclic graphs only (statement)", "walk model internal/walk"},
